@@ -696,9 +696,10 @@ def monitor(case: Case, out: list[str]) -> Optional[str]:
             for j, cd in enumerate(cdone):
                 if cd and (catt[j] is None or not trd[j]):
                     return where + f"competitor of target {j} executes without attempting / with the target not ready"
+        vc = d.get("val")  # validate_arguments of the targets: callable iff ready and valid(argument it would receive)
         if kind == "connect":
             # transfers data between the two methods exactly when both can run
-            both = i["r1"] == "1" and i["r2"] == "1"
+            both = i["r1"] == "1" and i["r2"] == "1" and val_ref(vc, int(i["d2"])) and val_ref(vc, int(i["d1"]))
             if (o["m1"] != "-") != both or (o["m2"] != "-") != both:
                 return where + f"methods called {o['m1'] != '-'}/{o['m2'] != '-'} but both ready = {both}"
             if both and (o["m1"] != i["d2"] or o["m2"] != i["d1"]):
@@ -709,8 +710,8 @@ def monitor(case: Case, out: list[str]) -> Optional[str]:
             run = [(x // n2, x % n2) for x, b in enumerate(o["run"]) if b == "1"]
             m1, m2 = _olist(o["m1"]), _olist(o["m2"])
             for a, b in run:
-                if not (r1[a] and r2[b]):
-                    return where + f"pair {(a, b)} runs but is not ready"
+                if not (r1[a] and r2[b] and val_ref(vc, d2[b]) and val_ref(vc, d1[a])):
+                    return where + f"pair {(a, b)} runs but cannot run (not ready / argument rejected)"
                 if m1[a] != d2[b] or m2[b] != d1[a]:
                     return where + f"pair {(a, b)} runs without exchanging data"
             if len({a for a, _ in run}) != len(run) or len({b for _, b in run}) != len(run):
@@ -723,11 +724,11 @@ def monitor(case: Case, out: list[str]) -> Optional[str]:
                     return where + f"methods2[{b}] called without a running pair (or vice versa)"
             for a in range(n1):
                 for b in range(n2):
-                    if r1[a] and r2[b] and m1[a] is None and m2[b] is None:
+                    if r1[a] and r2[b] and val_ref(vc, d2[b]) and val_ref(vc, d1[a]) and m1[a] is None and m2[b] is None:
                         return where + f"pair {(a, b)}: both can run and neither is served"
         elif kind == "map":
             w = d["w"]
-            done = i["call"] != "-" and i["trdy"] == "1"
+            done = i["call"] != "-" and i["trdy"] == "1" and val_ref(vc, un_ref(d["ifun"], w, int(i["call"])))
             if (o["m"] != "-") != done or (o["t"] != "-") != done:
                 return where + f"executed={o['m'] != '-'} target called={o['t'] != '-'} expected {done}"
             if done:
@@ -745,7 +746,8 @@ def monitor(case: Case, out: list[str]) -> Optional[str]:
             holds = cond_ref(d["cond"], w, a) != 0
             # the target is available to the filter iff it is ready and not taken by the competing caller
             rdy = i["trdy"] == "1" and not (cdone and cdone[0])
-            done = (rdy or not holds) if d["uc"] else rdy
+            ok = rdy and (not holds or val_ref(vc, a))  # a call under m.If is validated only when enabled
+            done = (ok or not holds) if d["uc"] else ok
             if (o["m"] != "-") != done:
                 return where + f"executed={o['m'] != '-'} but condition={holds} target ready={rdy} use_condition={d['uc']}"
             own = o["t"] != "-" and not (cdone and cdone[0])  # the target ran and it was not the competitor's call
@@ -768,7 +770,7 @@ def monitor(case: Case, out: list[str]) -> Optional[str]:
             # the transformer's OWN calls: the target ran and it was not the competitor's call
             tc = [None if cd[j] else seen[j] for j in range(n)]
             # a target is available to the transformer iff it is ready and not taken by a competing caller
-            rd = [int(rd[j] and not cd[j]) for j in range(n)]
+            rd = [int(rd[j] and not cd[j] and (i["call"] == "-" or val_ref(vc, int(i["call"])))) for j in range(n)]
             if i["call"] == "-":
                 if o["m"] != "-" or any(x is not None for x in tc):
                     return where + "something executes without a call"
@@ -798,6 +800,8 @@ def monitor(case: Case, out: list[str]) -> Optional[str]:
             cs = _olist(i["calls"])
             res = _olist(o["c"])
             rdy = i["trdy"] == "1"
+            if vc and len({c for c in cs if c is not None}) == 1:
+                rdy = rdy and val_ref(vc, next(c for c in cs if c is not None))
             for j, c in enumerate(cs):
                 if (res[j] is not None) != (c is not None and rdy):
                     return where + f"caller {j}: attempted={c is not None} executed={res[j] is not None} target ready={rdy}"
@@ -841,6 +845,15 @@ def nontrivial(case: Case, out: list[str]) -> bool:
     kind = case.desc["component"]
     obs = [dict(x.split("=", 1) for x in ob.split()) for ob in out[1:]]
     ins = [_kv(op) for op in case.ops]
+    if case.desc.get("val"):
+        # something executes, and something is blocked although every involved target is ready (argument rejected)
+        def allready(i):
+            return all(ch == "1" for key in ("trdy", "r1", "r2") if key in i for ch in i[key]) and i.get("call", "0") != "-" and i.get("calls", "0") != "-"
+
+        def idle(o):
+            return all(v.replace("-", "").replace(",", "").replace("0", "") == "" for k2, v in o.items() if k2 in ("m", "m1", "c", "run"))
+
+        return any(allready(i) and idle(o) for i, o in zip(ins, obs)) and any(not idle(o) for o in obs)
     if "cdecl" in case.desc:
         # contention: a competing caller and the transformer want the same ready target in one cycle
         def contended(i):
@@ -945,25 +958,25 @@ def _vals(rng, w: int, n: int) -> str:
 
 def gen_cases(ctx: Check, rng, thorough: bool) -> list[Case]:
     cases: list[Case] = []
-    widths = [1, 2, 3, 4, 8] if not thorough else [1, 2, 3, 4, 5, 7, 8, 16]
+    widths = [1, 2, 3, 8] if not thorough else [1, 2, 3, 4, 5, 7, 8, 16]
     nmax = 4 if not thorough else 5
     reps = 2 if not thorough else 6
     # --- MethodMap
     for w in widths:
-        for r in range(reps):
+        for r in range(reps if thorough else 1):
             d = {"w": w, "ifun": _rand_un(rng, w), "ofun": _rand_un(rng, w)}
             ex = w <= 3 and r == 0
             cases.append(_case("map", d, _u_ops(rng, w, 120, ex), "exhaustive" if ex else "random"))
     # --- MethodFilter, both modes, one-bit and multi-bit condition values
     for uc in (0, 1):
         for w in widths:
-            for r in range(reps):
+            for r in range(reps if thorough else 1):
                 d = {"w": w, "cond": _rand_cond(rng, w, multibit=True), "def": rng.randrange(1 << w), "uc": uc}
                 ex = w <= 3 and r == 0
                 cases.append(_case("filter", d, _u_ops(rng, w, 120, ex), "exhaustive" if ex else "random"))
     # --- MethodProduct / MethodTryProduct: every readiness pattern of <= nmax targets
     for n in range(1, nmax + 1):
-        for comb in ("first", "last", "add", "xor"):
+        for comb in (("first", "last", "add", "xor") if thorough else ["first", *rng.sample(["last", "add", "xor"], 1)]):
             w = rng.choice(widths)
             ops = []
             for p in _patterns(n):
@@ -971,7 +984,7 @@ def gen_cases(ctx: Check, rng, thorough: bool) -> list[Case]:
                 for _ in range(2):
                     ops.append(f"cyc call={rng.randrange(1 << w)} trdy={p} tret={_vals(rng, w, n)}")
             cases.append(_case("product", {"w": w, "n": n, "comb": comb}, ops, "exhaustive"))
-        for comb in ("none", "bits", "msum", "rsum", "both"):
+        for comb in (("none", "bits", "msum", "rsum", "both") if thorough else ["none", "rsum", rng.choice(["bits", "msum", "both"])]):
             w = rng.choice(widths)
             ops = []
             for p in _patterns(n):
@@ -1019,7 +1032,7 @@ def gen_cases(ctx: Check, rng, thorough: bool) -> list[Case]:
                 ops.append(f"cyc trdy={p} tret={_vals(rng, w, n)} rd={rd}")  # pattern on empty buffer
                 ops.append(f"cyc trdy={p} tret={_vals(rng, w, n)} rd={rd}")  # pattern on (possibly) full buffer
         cases.append(_case("collector", {"n": n, "w": w}, ops, "directed"))
-        for pt, pr in [(0.2, 0.9), (0.5, 0.5), (0.9, 0.2), (1.0, 1.0), (0.7, 0.7)][: (3 if not thorough else 5)]:
+        for pt, pr in [(0.6, 0.6), (0.2, 0.9), (0.5, 0.5), (0.9, 0.2), (1.0, 1.0)][: (1 if not thorough else 5)]:
             ops = [
                 f"cyc trdy={''.join(str(int(rng.random() < pt)) for _ in range(n))} tret={_vals(rng, w, n)} "
                 f"rd={int(rng.random() < pr)}"
@@ -1043,7 +1056,7 @@ def gen_comp_cases(rng, thorough: bool) -> list[Case]:
         for n in range(1, nmax + 1):
             w = rng.choice([2, 3, 4])
             for kind, comb in (("tryproduct", rng.choice(["bits", "both"])), ("tryproduct", "msum"),
-                               ("product", rng.choice(["first", "add", "xor"])))[: (3 if thorough or n > 1 else 2)]:
+                               ("product", rng.choice(["first", "add", "xor"])))[:: (1 if thorough or n == 2 else 2)]:
                 ops = []
                 for p in _patterns(n):
                     for q in _patterns(n):
@@ -1066,7 +1079,7 @@ def gen_comp_cases(rng, thorough: bool) -> list[Case]:
                 )
             cases.append(_case("collector", {"n": n, "w": w, "cdecl": decl}, ops, "exhaustive"))
         for uc in (0, 1):
-            for _ in range(2 if not thorough else 4):
+            for _ in range(1 if not thorough else 4):
                 w = rng.choice([2, 3])
                 d = {"w": w, "cond": _rand_cond(rng, w, multibit=True), "def": rng.randrange(1 << w), "uc": uc, "cdecl": decl}
                 ops = [
@@ -1074,6 +1087,37 @@ def gen_comp_cases(rng, thorough: bool) -> list[Case]:
                     for c in ["-", *range(1 << w)] for r in (0, 1) for q in "01"
                 ]
                 cases.append(_case("filter", d, ops, "exhaustive"))
+    return cases
+
+
+def gen_valid_cases(rng, thorough: bool) -> list[Case]:
+    """Targets with `validate_arguments` (argument != k, mostly k = 0): a target is callable iff ready and it
+    accepts the argument it would receive.  Built through the constructor and through `create`."""
+    cases: list[Case] = []
+    for via in ("ctor", "create"):
+        k = 0 if via == "ctor" or rng.random() < 0.5 else rng.randrange(1, 4)
+        V = {"val": f"ne:{k}", "via": via}
+        w = 2
+        vals = range(1 << w)
+        cases.append(_case("connect", {"wi": w, "wo": w, **V}, [
+            f"cyc r1={a} r2={b} d1={x} d2={y}" for a in "01" for b in "01" for x in vals for y in vals], "exhaustive"))
+        for n1, n2 in ([(1, 2), (2, 2)] if not thorough else [(1, 1), (1, 2), (2, 1), (2, 2), (2, 3), (3, 2)]):
+            ops = []
+            for p1 in _patterns(n1):
+                for p2 in _patterns(n2):
+                    for _ in range(3):
+                        ops.append(f"cyc r1={p1} r2={p2} d1={_vals(rng, w, n1)} d2={_vals(rng, w, n2)}")
+            cases.append(_case("crossbar", {"n1": n1, "n2": n2, "wi": w, "wo": w, **V}, ops, "exhaustive"))
+        cases.append(_case("map", {"w": w, "ifun": _rand_un(rng, w), "ofun": _rand_un(rng, w), **V}, _u_ops(rng, w, 0, True), "exhaustive"))
+        for uc in (0, 1):
+            d = {"w": w, "cond": _rand_cond(rng, w, multibit=True), "def": rng.randrange(1 << w), "uc": uc, **V}
+            cases.append(_case("filter", d, _u_ops(rng, w, 0, True), "exhaustive"))
+        for kind, comb in (("product", "add"), ("tryproduct", "both")):
+            n = rng.choice([2, 3])
+            ops = [f"cyc call={c} trdy={p} tret={_vals(rng, w, n)}" for c in ["-", *vals] for p in _patterns(n)]
+            cases.append(_case(kind, {"w": w, "n": n, "comb": comb, **V}, ops, "exhaustive"))
+        ops = [f"cyc calls={c} trdy={r} tret={rng.randrange(1 << w)}" for c in ["-", *vals] for r in (0, 1)]
+        cases.append(_case("nonex", {"w": w, "k": 1, **V}, ops, "exhaustive"))
     return cases
 
 
@@ -1139,16 +1183,21 @@ def run(ctx: Check):
         "partial success (try-product), >= 2 simultaneous callers (nonexclusive wrapper), a ready pair blocked by a "
         "conflicting running pair or two pairs running (crossbar), both forwarding and buffering (collector); "
         "cases with competing callers of the targets (declared before and after the transformer): non-trivial = a "
-        "competitor and the transformer want the same ready target in one cycle"
+        "competitor and the transformer want the same ready target in one cycle; cases with validate_arguments on "
+        "the targets: non-trivial = something is blocked with all targets ready (argument rejected) and something runs; "
+        "every transformer is built alternately through its constructor and its `create` factory"
     )
     ctx.proof_stage()
     ctx.replay_findings(replay_witness)
     rng = ctx.rng("gen")
     cases = (
         gen_cases(ctx, rng, ctx.thorough) + gen_regression_cases(ctx.rng("mb")) + gen_comp_cases(ctx.rng("comp"), ctx.thorough)
+        + gen_valid_cases(ctx.rng("valid"), ctx.thorough)
     )
     for c in cases:
-        ctx.count(f"component_{c.desc['component']}" + ("_with_competitors" if "cdecl" in c.desc else ""))
+        ctx.count(f"component_{c.desc['component']}" + ("_with_competitors" if "cdecl" in c.desc else "")
+                  + ("_validating_targets" if c.desc.get("val") else ""))
+        ctx.count(f"built_via_{c.desc.get('via', 'ctor')}")
     procs = 1 if ctx.quick else 8
     lockstep(ctx, "transformers", "C18", cases, impl, monitor, more_cases, nontrivial, procs=procs)
     ctx.exhaustive = False
